@@ -15,7 +15,7 @@ def run(ctx):
             f.result()
     traces = vlib.glob_traces(out)
     bad, st = ctx.accept(ACC, ACC_CFG, traces, heap="6g", timeout=6000)
-    if st.get("segs", 0) != meta["segments"] or st.get("runs", 0) != meta["runs"]:
+    if st.get("segs", 0) != meta["segments"] or (not bad and st.get("runs", 0) != meta["runs"]):
         raise vlib.Infra("acceptor saw %s segments / %s runs, driver wrote %s / %s" % (st.get("segs"), st.get("runs"), meta["segments"], meta["runs"]))
     vlib.add_bad_segments(ctx, traces, bad, truncate_hist=False)
     ctx.cov.update(
